@@ -126,7 +126,15 @@ func Select(arr, idx *Term) *Term {
 	return App("select", arrayElemSort(arr.Sort), arr, idx)
 }
 func Store(arr, idx, v *Term) *Term { return App("store", arr.Sort, arr, idx, v) }
-func Add(a, b *Term) *Term          { return App("+", "Int", a, b) }
+func Add(a, b *Term) *Term {
+	if isLit(a, "0") {
+		return b
+	}
+	if isLit(b, "0") {
+		return a
+	}
+	return App("+", "Int", a, b)
+}
 func Sub(a, b *Term) *Term          { return App("-", "Int", a, b) }
 func Le(a, b *Term) *Term           { return App("<=", "Bool", a, b) }
 func Lt(a, b *Term) *Term           { return App("<", "Bool", a, b) }
@@ -385,11 +393,37 @@ func sortIdent(s string) string {
 }
 
 // slice helpers
-func (r *SortReg) sArr(s *Term) *Term { return App("arr_"+s.Sort, arraySort("Int", r.sliceElem(s.Sort)), s) }
-func (r *SortReg) sOff(s *Term) *Term { return App("off_"+s.Sort, "Int", s) }
-func (r *SortReg) sLen(s *Term) *Term { return App("len_"+s.Sort, "Int", s) }
-func (r *SortReg) sCap(s *Term) *Term { return App("cap_"+s.Sort, "Int", s) }
-func (r *SortReg) sNil(s *Term) *Term { return App("nil_"+s.Sort, "Bool", s) }
+// accessors simplify on explicit constructors, so that slices built in the function have literal shape
+func (r *SortReg) sArr(s *Term) *Term {
+	if s.Op == "mk_"+s.Sort {
+		return s.Args[0]
+	}
+	return App("arr_"+s.Sort, arraySort("Int", r.sliceElem(s.Sort)), s)
+}
+func (r *SortReg) sOff(s *Term) *Term {
+	if s.Op == "mk_"+s.Sort {
+		return s.Args[1]
+	}
+	return App("off_"+s.Sort, "Int", s)
+}
+func (r *SortReg) sLen(s *Term) *Term {
+	if s.Op == "mk_"+s.Sort {
+		return s.Args[2]
+	}
+	return App("len_"+s.Sort, "Int", s)
+}
+func (r *SortReg) sCap(s *Term) *Term {
+	if s.Op == "mk_"+s.Sort {
+		return s.Args[3]
+	}
+	return App("cap_"+s.Sort, "Int", s)
+}
+func (r *SortReg) sNil(s *Term) *Term {
+	if s.Op == "mk_"+s.Sort {
+		return s.Args[4]
+	}
+	return App("nil_"+s.Sort, "Bool", s)
+}
 func (r *SortReg) sMk(sort string, arr, off, ln, cp, isnil *Term) *Term {
 	return App("mk_"+sort, sort, arr, off, ln, cp, isnil)
 }
@@ -416,7 +450,29 @@ func (r *SortReg) sliceElem(sliceSort string) string {
 	panic("bad slice decl")
 }
 func (r *SortReg) sIndex(s, i *Term) *Term {
+	if hasBoundTerm(i) && s.Op != "mk_"+s.Sort {
+		// inside quantifiers: a function symbol gives the solvers a clean trigger; its defining axiom
+		// idx(s,i) = arr(s)[off(s)+i] is instantiated wherever an idx term occurs
+		name := "idx_" + s.Sort
+		es := r.sliceElem(s.Sort)
+		r.Fun(name, []string{s.Sort, "Int"}, es)
+		r.Axiom(name, fmt.Sprintf("(forall ((s %s) (i Int)) (! (= (%s s i) (select (arr_%s s) (+ (off_%s s) i))) :pattern ((%s s i))))",
+			s.Sort, name, s.Sort, s.Sort, name))
+		return App(name, es, s, i)
+	}
 	return Select(r.sArr(s), Add(r.sOff(s), i))
+}
+
+func hasBoundTerm(t *Term) bool {
+	if t.Op == "bound" {
+		return true
+	}
+	for _, a := range t.Args {
+		if hasBoundTerm(a) {
+			return true
+		}
+	}
+	return false
 }
 
 const prelude = `
